@@ -485,8 +485,12 @@ func init() {
 func mentionsIdent(c *core.Ctx, e ast.Expr, o types.Object) bool {
 	found := false
 	core.InspectNode(e, func(x ast.Node) bool {
-		if id, ok := x.(*ast.Ident); ok && c.Info.ObjectOf(id) == o {
-			found = true
+		if id, ok := x.(*ast.Ident); ok {
+			if c.Info.ObjectOf(id) == o {
+				found = true
+			} else if t, isId := c.Through(id).(*ast.Ident); isId && t != id && c.Info.ObjectOf(t) == o {
+				found = true // a spliced helper's parameter bound to the variable
+			}
 		}
 		return !found
 	})
